@@ -473,6 +473,23 @@ def run_reread(chk, wd):
                           'command': g.process_configs[0].command, 'expected': os.path.join(wd, want[g.name]),
                           'old_file': _show(F(main2, {'conf.d/a/one.conf': ha, 'conf.d/b/two.conf': hb,
                                                       'conf.d/z/three.conf': hc, 'conf.d/top.conf': ht}))})
+    # what an escaped percent sign means: `%%` in an option value is one `%`, with or without a `%(name)s` beside it
+    pct = rr.base + c15_gen.render([('program:pa', [('command', '/bin/echo 100%% done'), ('environment', 'A="50%%",B="%(program_name)s%%"')]),
+                                    ('program:pb', [('command', '/bin/echo %(program_name)s 7%%')]),
+                                    ('eventlistener:pl', [('command', '/bin/cat %%s'), ('events', 'TICK_5')])])
+    pct2 = pct.replace('100%% done', '100%%%% done')
+    rr.world.boot(pct)
+    got_vals = dict((g.name, g.process_configs[0]) for g in rr.world.options.process_group_configs)
+    want_vals = [('pa', 'command', '/bin/echo 100% done'), ('pa', 'environment', {'A': '50%', 'B': 'pa%'}),
+                 ('pb', 'command', '/bin/echo pb 7%'), ('pl', 'command', '/bin/cat %s')]
+    for gname, attr, val in want_vals:
+        have = getattr(got_vals[gname], attr)
+        if have != val:
+            rr.violation({'kind': 'an escaped percent sign (%%) in an option value is not read as one percent sign',
+                          'group': gname, 'option': attr, 'value_in_config_object': repr(have), 'expected': repr(val),
+                          'old_file': pct, 'new_file': pct})
+    rr.sequence([pct, pct2, pct], 'seq:percent-escape', expect_triple=([], [], []))
+    rr.sequence([pct, pct2], 'struct:percent-escape', expect_triple=([], ['pa'], []))
     # sequences: edit -> reread -> edit -> reread, no update in between
     seqs = c15_gen.reread_sequences(chk.tier)
     for label, steps in seqs:
